@@ -45,8 +45,20 @@ def _kind_chain(ctx: Ctx) -> tuple[dict[str, str], str | None]:
     under every constant; a flag reachable under several constants is discounted wherever a constant also selects a flag of its own."""
     init = ctx.repo.func(f"{M}.elements:XmlVar.__init__")
     d = Dispatch(init.node, is_subject=lambda e: unparse(e) == "xml_type")
-    fl = {key: _true_flag_stores(d.under(key)) for key in sorted(d.keys) if key.startswith("XmlType.")}
-    ef = _true_flag_stores(d.under(None))
+    def computed(key) -> set[str]:
+        """Flags stored from a boolean expression (`self.is_attribute = not is_node and xml_type == XmlType.ATTRIBUTE`) that is true under
+        the key when no side condition holds."""
+        out = set()
+        for n in d.g.stmts():
+            st = n.ast
+            if n.kind == "stmt" and isinstance(st, ast.Assign) and not isinstance(st.value, ast.Constant):
+                for t in st.targets:
+                    if is_self_attr(t) and t.attr.startswith("is_") and d.truth_under(init, key, n, st.value, depth=8, unknown=False) is True:
+                        out.add(t.attr)
+        return out
+
+    fl = {key: _true_flag_stores(d.under(key)) | computed(key) for key in sorted(d.keys) if key.startswith("XmlType.")}
+    ef = _true_flag_stores(d.under(None)) | computed(None)
     every = [ef, *fl.values()]
     common = {f for f in set().union(*every) if sum(1 for x in every if f in x) > 1}
 
@@ -157,8 +169,19 @@ def kind_totality(ctx: Ctx) -> None:
             return frozenset([t.attr]), True
         return None
 
-    def bucket_targets(nodes) -> set[str]:
+    item_names = {x.id for lp in walk_no_nested(build.node) if isinstance(lp, ast.For) for x in ast.walk(lp.target) if isinstance(x, ast.Name)}
+
+    def bucket_targets(nodes, key=None) -> set[str]:
         tg: set[str] = set()
+
+        def resolve(n, base: ast.expr) -> set[str]:
+            """The container a store / append goes into: the name itself, or - for a local that was bound to one of several containers
+            (`bucket = choices`) - what it is bound to under this key."""
+            if isinstance(base, ast.Name):
+                vals = {v.id for v, _d in bd._defs_under(build, key, n, base) if isinstance(v, ast.Name)}  # one step: the container, not its initial value
+                return vals or {base.id}
+            return {unparse(base)}
+
         for n in nodes:
             if n.kind != "stmt" or n.ast is None:
                 continue
@@ -166,21 +189,21 @@ def kind_totality(ctx: Ctx) -> None:
             if isinstance(st, ast.Assign):
                 t0 = st.targets[0]
                 if isinstance(t0, ast.Subscript) and isinstance(st.value, ast.Name):
-                    tg.add(unparse(t0.value))
-                elif isinstance(t0, ast.Name) and isinstance(st.value, ast.Name) and L(build, st.value) == "_":
-                    tg.add(t0.id)
+                    tg |= resolve(n, t0.value)
+                elif isinstance(t0, ast.Name) and isinstance(st.value, ast.Name) and st.value.id in item_names:
+                    tg.add(t0.id)  # `text = var`: the single-valued bucket
             for sub in ast.walk(st):
                 if isinstance(sub, ast.Call) and isinstance(sub.func, ast.Attribute) and sub.func.attr == "append":
                     base = sub.func.value
-                    tg.add(unparse(base.value if isinstance(base, ast.Subscript) else base))
+                    tg |= resolve(n, base.value if isinstance(base, ast.Subscript) else base)
         return tg
 
     bd = Dispatch(build.node, classify=flag_of)
-    common = bucket_targets(bd.under("is_none_of_them")) & bucket_targets(bd.under(sorted(bd.keys)[0] if bd.keys else None))
+    common = bucket_targets(bd.under("is_none_of_them"), "is_none_of_them") & bucket_targets(bd.under(sorted(bd.keys)[0] if bd.keys else None), sorted(bd.keys)[0] if bd.keys else None)
     for flag in sorted(bd.keys):
-        tg = bucket_targets(bd.under(flag)) - common
+        tg = bucket_targets(bd.under(flag), flag) - common
         buckets[flag] = next(iter(tg)) if len(tg) == 1 else (sorted(tg)[0] if tg else "?")
-    else_t = bucket_targets(bd.under(None)) - common
+    else_t = bucket_targets(bd.under(None), None) - common
     if else_t:
         buckets.setdefault("is_text", sorted(else_t)[0])
     # keyword the bucket is passed as to XmlMeta(...)
